@@ -1,4 +1,5 @@
 import FpVerif.Lemmas.CowFinal
+import FpVerif.Lemmas.CowProgress
 /-!
 # C19 — CopyOnWriteMap is linearizable; ComputeIfAbsent is atomic per key.
 
@@ -13,6 +14,10 @@ with the result of the ATOMIC map `Op.apply`) and `ret` events.
   other operations are as written in copyonwrite.go): forward simulation to the atomic map with
   explicit linearization points ⇒ every history of every schedule is linearizable; nobody panics;
   ComputeIfAbsent agreement.
+* Part A' (AUDITFIX-B, audit finding 26; BOTH variants): progress and termination — no deadlock,
+  every executed atomic block decreases `totalWork`, `finishSched` (the oracle's round-robin
+  driver) and every weakly fair infinite schedule reach quiescence; with Part A: under every fair
+  schedule every operation of every program is eventually linearized and returns.
 * Part B (`Variant.asIs`): kernel-checked witness schedules showing that ComputeIf as written
   violates the property (two ComputeIfAbsent calls return different values; `.Get()` panics after a
   concurrent Removed).
@@ -149,6 +154,107 @@ theorem asIs_eq_recheck_without_computeIf (progs : List (List Op)) (sched : List
     crun .asIs (init progs) sched = crun .recheck (init progs) sched :=
   run_asIs_eq hno sched (init progs) (Inv_init progs)
 
+
+/-! ## Part A' — progress and termination (both variants)
+
+The safety theorems above say nothing about a schedule under which nothing happens.  A thread of
+this model CAN be blocked: `stepT = none` at `cow.enter`, `cow.load.lock` (and `load2Lock`) while
+another thread holds the mutex.  Progress therefore rests on the invariant `WF` of
+`Lemmas/CowProgress.lean`: every program counter fits its operation, and the mutex is held iff
+exactly one thread sits at `cow.store` — which is always enabled.  `totalWork` (6 atomic blocks
+per operation not yet begun, `pcW pc ≤ 6` for the one in progress) bounds the remaining work. -/
+
+/-- DEADLOCK FREEDOM: in every reachable state in which some thread has not finished its program,
+    some thread can execute an atomic block (the lock holder if the mutex is taken, any unfinished
+    thread otherwise). -/
+theorem no_deadlock (v : Variant) (progs : List (List Op)) (sched : List Tid)
+    (h : allFinished (crun v (init progs) sched) = false) :
+    ∃ t, t < progs.length ∧ (step (stepT v) (crun v (init progs) sched) t).isSome = true := by
+  obtain ⟨t, hlt, hen⟩ := exists_enabled v (WF_run v (WF_init progs) sched) h
+  refine ⟨t, ?_, hen⟩
+  rw [length_run] at hlt
+  have := congrArg List.length (Inv_init progs).ops
+  simp only [List.length_map] at this
+  omega
+
+/-- quiescence is exactly "nobody can move": `Sched.Quiescent` ↔ `allFinished` in reachable states
+    (no reachable state is stuck with work left) -/
+theorem quiescent_iff_allFinished (v : Variant) (progs : List (List Op)) (sched : List Tid) :
+    Quiescent (stepT v) (crun v (init progs) sched) ↔
+      allFinished (crun v (init progs) sched) = true := by
+  constructor
+  · intro hq
+    cases hf : allFinished (crun v (init progs) sched) with
+    | true => rfl
+    | false =>
+      obtain ⟨t, _, hen⟩ := no_deadlock v progs sched hf
+      rw [hq t] at hen; simp at hen
+  · intro hf t
+    have := allFinished_run v hf [t]
+    unfold step
+    cases hl : (crun v (init progs) sched).threads[t]? with
+    | none => rfl
+    | some l =>
+      have hfin : l.isFinished = true := by
+        simp only [allFinished, List.all_eq_true] at hf
+        exact hf l (List.mem_of_getElem? hl)
+      simp [stepT_none_of_finished v _ l hfin]
+
+/-- every executed atomic block strictly decreases `totalWork` -/
+theorem work_decreases (v : Variant) (progs : List (List Op)) (sched : List Tid) (t : Tid)
+    (s' : CSys) (h : step (stepT v) (crun v (init progs) sched) t = some s') :
+    totalWork s' < totalWork (crun v (init progs) sched) :=
+  (WF_step v _ t s' (WF_run v (WF_init progs) sched) h).2
+
+/-- no schedule executes more than `totalWork init ≤ 6 · (number of operations)` atomic blocks:
+    there is no livelock (no retry loop: every block is paid for by the program text) -/
+theorem bounded_work (v : Variant) (progs : List (List Op)) (sched : List Tid) :
+    effSteps (stepT v) (init progs) sched ≤ totalWork (init progs) := by
+  have := effSteps_le_measure_inv (stepT := stepT v) (Inv := WF) (μ := totalWork)
+    (fun s t s' hi hs => (WF_step v s t s' hi hs).1)
+    (fun s t s' hi hs => (WF_step v s t s' hi hs).2) (init progs) (WF_init progs) sched
+  omega
+
+/-- TERMINATION OF `finishSched`: from every reachable state the round-robin driver that the
+    oracle (and, mirrored, the harness) appends to the explicit schedule ends in a state in which
+    every thread has finished its program. -/
+theorem finishSched_reaches_quiescence (v : Variant) (progs : List (List Op)) (sched : List Tid) :
+    allFinished (crun v (crun v (init progs) sched)
+      (finishSched (crun v (init progs) sched))) = true :=
+  roundRobin_finishes v _ _ (WF_run v (WF_init progs) sched) (totalWork_le_fuel _)
+
+/-- EVERY FAIR SCHEDULE TERMINATES.  `σ` is an infinite schedule; `Fair`: a thread that is
+    unfinished after `n` entries — running or waiting for the mutex — is named again by some later
+    entry.  Then after finitely many entries every thread has finished, and nothing changes any
+    more.  (Weak fairness suffices although threads can block: a blocked thread waits for the lock
+    holder, which is itself unfinished, enabled, and therefore scheduled.) -/
+theorem fair_schedule_reaches_quiescence (v : Variant) (progs : List (List Op)) (σ : Nat → Tid)
+    (hfair : Fair v (init progs) σ) :
+    ∃ n, ∀ m, n ≤ m → allFinished (crun v (init progs) (prefixOf σ m)) = true ∧
+      crun v (init progs) (prefixOf σ m) = crun v (init progs) (prefixOf σ n) :=
+  fair_finishes_stable v _ (WF_init progs) σ hfair
+
+/-- the same from any reachable state -/
+theorem fair_continuation_reaches_quiescence (v : Variant) (progs : List (List Op))
+    (sched : List Tid) (σ : Nat → Tid) (hfair : Fair v (crun v (init progs) sched) σ) :
+    ∃ n, allFinished (crun v (init progs) (sched ++ prefixOf σ n)) = true := by
+  obtain ⟨n, hn⟩ := fair_finishes v _ (WF_run v (WF_init progs) sched) σ hfair
+  refine ⟨n, ?_⟩
+  show allFinished (run (stepT v) _ (sched ++ prefixOf σ n)) = true
+  rw [run_append]; exact hn
+
+/-- LIVENESS of the repaired algorithm: under every fair schedule, eventually every operation of
+    every program has been linearized and has returned the linearized result
+    (`complete_at_quiescence` becomes applicable). -/
+theorem fair_schedule_completes_all (progs : List (List Op)) (σ : Nat → Tid)
+    (hfair : Fair .recheck (init progs) σ) :
+    ∃ n, ∀ (t : Nat) (l : Local),
+      (crun .recheck (init progs) (prefixOf σ n)).threads[t]? = some l →
+      l.done.map (·.1) = progs[t]?.getD [] ∧
+      proj t (crun .recheck (init progs) (prefixOf σ n)).shared.hist = doneEvents t 0 l.done := by
+  obtain ⟨n, hn⟩ := fair_schedule_reaches_quiescence .recheck progs σ hfair
+  exact ⟨n, fun t l hl => complete_at_quiescence progs _ t l (hn n (Nat.le_refl _)).1 hl⟩
+
 /-! ## Part B — copyonwrite.go as written violates the property (kernel-checked witnesses) -/
 
 def cia (k : K) (fid : Nat) (nv : V) : Op := .computeIf k none (fun _ => false) fid nv
@@ -190,6 +296,23 @@ example :
     let s := crun .recheck (init [[.updated 0 1], [.updated 0 2, .get 0]]) [0, 1, 1, 0, 1, 1, 1, 1]
     allFinished s = true ∧ (linsOf s.shared.hist).length = 3 ∧
     s.threads.map Local.rets = [[.unit], [.unit, .opt (some 2)]] := by
+  decide
+
+
+/-- fair infinite schedules exist (round robin over two threads), and blocking really occurs: in
+    the non-vacuity schedule above thread 1's second turn is a skipped entry (it waits at
+    `cow.enter` while thread 0 holds the mutex) -/
+example : Fair .recheck (init [[.updated 0 1], [.updated 0 2, .get 0]]) (fun n => n % 2) := by
+  apply Fair.of_infinitely_often
+  intro n t ht
+  have ht : t < 2 := by simpa [init, initFrom] using ht
+  refine ⟨2 * n + t, by omega, ?_⟩
+  show (2 * n + t) % 2 = t
+  omega
+
+example :
+    step (stepT .recheck) (crun .recheck (init [[.updated 0 1], [.updated 0 2, .get 0]]) [0]) 1 = none ∧
+    allFinished (crun .recheck (init [[.updated 0 1], [.updated 0 2, .get 0]]) [0]) = false := by
   decide
 
 end FpVerif.Spec.C19
